@@ -35,6 +35,19 @@ Theorem expected_membership :
 Proof. exact expected_in. Qed.
 Print Assumptions expected_membership.
 
+(* input order is compositional (the yields of aws1 ++ aws2 are those of aws1
+   followed by those of aws2) and there is at most one yield per awaitable *)
+Theorem expected_compositional :
+  forall inst only aws1 aws2,
+    expected inst only (aws1 ++ aws2) = expected inst only aws1 ++ expected inst only aws2.
+Proof. exact expected_app. Qed.
+Print Assumptions expected_compositional.
+
+Theorem at_most_one_yield_per_awaitable :
+  forall inst only aws, (length (expected inst only aws) <= length aws)%nat.
+Proof. exact expected_length. Qed.
+Print Assumptions at_most_one_yield_per_awaitable.
+
 (* Input order, not finishing order: for EVERY order in which the children
    complete (any list of events in which each child index occurs exactly once,
    whatever the ticks), the yields are the same list. *)
